@@ -631,7 +631,15 @@ pub fn column_read(
             let array = if strings {
                 let mut b = StringArrayBuilder::new();
                 for it in items {
-                    b.push(it.map(|v| format!("s{v}")).as_deref());
+                    // v >= 1_000_000 stands for a long string: 'L' followed by v - 1_000_000 times
+                    // 'x'
+                    b.push(
+                        it.map(|v| match v {
+                            1_000_000.. => format!("L{}", "x".repeat((v - 1_000_000) as usize)),
+                            _ => format!("s{v}"),
+                        })
+                        .as_deref(),
+                    );
                 }
                 ArrayImpl::new_string(b.finish())
             } else {
@@ -668,7 +676,15 @@ pub fn column_read(
                         let values = match &array {
                             ArrayImpl::Int32(a) => a.to_vec(),
                             ArrayImpl::String(a) => (a.to_vec().into_iter())
-                                .map(|s| s.map(|s| s[1..].parse::<i32>().unwrap()))
+                                .map(|s| {
+                                    s.map(|s| match s.strip_prefix('L') {
+                                        Some(xs) if xs.bytes().all(|b| b == b'x') => {
+                                            1_000_000 + xs.len() as i32
+                                        }
+                                        Some(_) => -1,
+                                        None => s[1..].parse::<i32>().unwrap_or(-1),
+                                    })
+                                })
                                 .collect(),
                             _ => return Err("unexpected array type".into()),
                         };
